@@ -5,6 +5,7 @@ import (
 	"fmt"
 	"math"
 	"math/rand/v2"
+	"strings"
 	"time"
 
 	"gonum.org/v1/gonum/mat"
@@ -88,7 +89,10 @@ func (o *objective) Grad(g, x []float64) {
 
 func drawObjective(t *simrt.Tape, dim int, forceQuadratic bool) *objective {
 	o := &objective{dim: dim}
-	kind := t.Choose(simrt.KWorkload, 3)
+	kind := t.Choose(simrt.KWorkload, 6)
+	if kind == 5 {
+		kind = 0
+	}
 	if forceQuadratic {
 		kind = 0
 	}
@@ -169,6 +173,63 @@ func drawObjective(t *simrt.Tape, dim int, forceQuadratic bool) *objective {
 				h.SetSym(i, i, math.Cosh(x[i]-float64(i)/2))
 			}
 		}
+	case 3:
+		// the optimize/functions catalogue, by dimension
+		type cat interface {
+			Func(x []float64) float64
+			Grad(g, x []float64)
+		}
+		type catH interface {
+			Hess(h *mat.SymDense, x []float64)
+		}
+		var choices []cat
+		switch dim {
+		case 2:
+			choices = []cat{functions.Beale{}, functions.BrownBadlyScaled{}, functions.PowellBadlyScaled{}, functions.BiggsEXP2{}}
+		case 3:
+			choices = []cat{functions.Box3D{}, functions.BiggsEXP3{}, functions.Watson{}}
+		case 4:
+			choices = []cat{functions.Wood{}, functions.BrownAndDennis{}, functions.ExtendedPowellSingular{}, functions.BiggsEXP4{}}
+		case 5:
+			choices = []cat{functions.BiggsEXP5{}, functions.Watson{}}
+		case 6:
+			choices = []cat{functions.BiggsEXP6{}, functions.Watson{}}
+		}
+		choices = append(choices, functions.Trigonometric{}, functions.VariablyDimensioned{}, functions.PenaltyI{})
+		if dim == 1 {
+			choices = choices[1:] // Trigonometric is fine in any dimension, keep the rest
+		}
+		fn := choices[t.Choose(simrt.KWorkload, len(choices))]
+		o.name = fmt.Sprintf("%T", fn)
+		o.f = fn.Func
+		o.grad = fn.Grad
+		if h, ok := fn.(catH); ok {
+			o.hess = h.Hess
+		}
+	case 4:
+		// separable double well: the Hessian 3x^2-1 is indefinite around the
+		// origin (Newton's regularisation loop)
+		o.name = "double well"
+		o.f = func(x []float64) float64 {
+			var s float64
+			for i, v := range x {
+				s += v*v*v*v/4 - v*v/2 + 0.125*v*float64(i+1)/float64(len(x))
+			}
+			return s
+		}
+		o.grad = func(g, x []float64) {
+			for i, v := range x {
+				g[i] = v*v*v - v + 0.125*float64(i+1)/float64(len(x))
+			}
+		}
+		o.hess = func(h *mat.SymDense, x []float64) {
+			for i := range x {
+				for j := i; j < len(x); j++ {
+					h.SetSym(i, j, 0)
+				}
+				h.SetSym(i, i, 3*x[i]*x[i]-1)
+			}
+		}
 	}
 	if t.Choose(simrt.KFault, 4) == 3 {
 		o.bad = 1 + t.Choose(simrt.KFault, 3)
@@ -191,6 +252,7 @@ type evalLog struct {
 	nStatus             int
 	overflow            bool
 	nanX                bool // some evaluation point had a NaN or Inf coordinate
+	firstBad            int  // what went non-finite first: 1 a value or gradient at a finite point, 2 an evaluation point
 }
 
 func newEvalLog(dim, capacity int) *evalLog {
@@ -254,11 +316,7 @@ func (l *evalLog) leave() { l.inflight-- }
 //go:norace
 func (l *evalLog) recFunc(x []float64, f float64) {
 	l.nFunc++
-	for i := 0; i < l.dim; i++ {
-		if x[i] != x[i] || x[i] > math.MaxFloat64 || x[i] < -math.MaxFloat64 {
-			l.nanX = true
-		}
-	}
+	l.note(x, f)
 	if l.n < len(l.fs) {
 		for i := 0; i < l.dim; i++ {
 			l.xs[l.n*l.dim+i] = x[i]
@@ -267,6 +325,26 @@ func (l *evalLog) recFunc(x []float64, f float64) {
 		l.n++
 	} else {
 		l.overflow = true
+	}
+}
+
+// note classifies the first non-finite thing a run meets.
+//
+//go:norace
+func (l *evalLog) note(x []float64, vals ...float64) {
+	for i := 0; i < l.dim; i++ {
+		if x[i] != x[i] || x[i] > math.MaxFloat64 || x[i] < -math.MaxFloat64 {
+			l.nanX = true
+			if l.firstBad == 0 {
+				l.firstBad = 2
+			}
+			return
+		}
+	}
+	for _, v := range vals {
+		if (v != v || v > math.MaxFloat64 || v < -math.MaxFloat64) && l.firstBad == 0 {
+			l.firstBad = 1
+		}
 	}
 }
 
@@ -419,6 +497,7 @@ type minInst struct {
 	writerFail int
 	isolated   int  // 0 no; 1 FuncEvaluations only; 2 MajorIterations only; 3 Runtime only; 4 no limit at all: default settings on a convex quadratic
 	nilSet     bool // isolated == 4: pass settings == nil
+	cmaStop    int  // CmaEsChol.StopLogDet: 0 NaN (criterion off), 1 default, 2 +Inf (converged after the first generation)
 	costly     bool
 	fcAbs      float64 // FunctionConverge parameters (convKind 2)
 	fcRel      float64
@@ -562,6 +641,9 @@ func drawMinimize(t *simrt.Tape) *minInst {
 			in.pop = 2
 		}
 		in.forgetBest = t.Choose(simrt.KWorkload, 4) == 3
+		if in.isolated == 0 {
+			in.cmaStop = t.Choose(simrt.KWorkload, 3)
+		}
 	}
 	if in.method == mListSearch {
 		in.rows = small(12)
@@ -598,6 +680,9 @@ func (in *minInst) describe(m map[string]interface{}) {
 	m["gradient_threshold"] = fmt.Sprint(in.set.GradientThreshold)
 	m["converger"] = []string{"default", "NeverTerminate", fmt.Sprintf("FunctionConverge{Absolute:%v Relative:%v Iterations:%d}", in.fcAbs, in.fcRel, in.fcIter)}[in.convKind]
 	m["init_values"] = []string{"none", "F", "F+Grad", "F+Grad+Hess"}[in.initVals]
+	if in.method == mCmaEs {
+		m["cmaes_stop_log_det"] = []string{"NaN", "default", "+Inf"}[in.cmaStop]
+	}
 	m["recorder"] = []string{"none", "harness", "Printer"}[in.useRec]
 	if in.recInitErr {
 		m["fault_recorder_init"] = true
@@ -683,7 +768,7 @@ func (in *minInst) build() *minRun {
 	case mNelderMead:
 		r.method = &optimize.NelderMead{SimplexSize: []float64{0, 1, 0.25}[in.knob]}
 	case mCmaEs:
-		r.method = &optimize.CmaEsChol{Population: in.pop, ForgetBest: in.forgetBest, StopLogDet: math.NaN(), Src: rand.NewPCG(in.seed, 77), InitStepSize: []float64{0, 0.5, 2}[in.knob]}
+		r.method = &optimize.CmaEsChol{Population: in.pop, ForgetBest: in.forgetBest, StopLogDet: []float64{math.NaN(), 0, math.Inf(1)}[in.cmaStop], Src: rand.NewPCG(in.seed, 77), InitStepSize: []float64{0, 0.5, 2}[in.knob]}
 		r.pop = in.pop
 		if r.pop == 0 {
 			r.pop = 4 + int(3*math.Log(float64(in.dim)))
@@ -712,8 +797,8 @@ func (in *minInst) build() *minRun {
 			kind := "finite-objective"
 			if !log.allFinite() {
 				kind = "non-finite-objective"
-				if in.obj.bad == 0 && log.nanX {
-					// the objective is finite at every finite point: the
+				if log.firstBad == 2 {
+					// every value and gradient was finite until the
 					// method itself produced a NaN or Inf location
 					kind = "method-produced-non-finite-location"
 				}
@@ -758,6 +843,7 @@ func (in *minInst) build() *minRun {
 			log.enter()
 			perturb()
 			o.Grad(g, x)
+			log.note(x, g...)
 			log.incGrad()
 			log.leave()
 		}
@@ -935,6 +1021,7 @@ func runMinimize(t *simrt.Tape, rc *RunCtx) *Violation {
 	name := methodNames[in.method]
 	res, err, log := r.res, r.err, r.log
 	rc.hist("method=" + name)
+	rc.hist("objective=" + strings.SplitN(strings.SplitN(in.obj.name, "(", 2)[0], "+", 2)[0])
 	if usesLS(in.method) {
 		rc.hist("linesearcher=" + []string{"default", "Backtracking", "Bisection", "MoreThuente"}[in.ls])
 	}
@@ -1295,6 +1382,9 @@ func checkC19(rc *RunCtx, in *minInst, r *minRun, nTasks int) *Violation {
 	case optimize.MethodConverge:
 		if in.method != mListSearch && in.method != mStub && in.method != mCmaEs {
 			return bad("the method has no convergence criterion of its own")
+		}
+		if in.method == mCmaEs && in.cmaStop == 0 {
+			return bad("CmaEsChol.StopLogDet is NaN, which switches its convergence criterion off")
 		}
 	case optimize.Failure:
 		if err == nil {
